@@ -143,12 +143,24 @@ ResetPrograms ==
        C("Transform", FALSE, TrNone(3, 2)), C("Transform", FALSE, TrNone(2, 5)), SR("tr", 2), C("Transform", FALSE, TrNone(2, 2)),
        C("Transform", FALSE, TrNone(4, 14)), SR("tr", 4), C("Transform", FALSE, TrNone(4, 2)), C("Transform", FALSE, TrNone(5, 1)), SR("tr", 5), C("Transform", FALSE, TrNone(5, 0)) >> }
 
+\* MANY transforms of one type in a proposal (five, six, nine), the types in ascending, descending and alternating order of the calls: every
+\* call adds exactly one transform to the list of its type and leaves the other lists as they are (a proposal offering six ciphers is
+\* ordinary; the free exploration stops at two sub-elements)
+TrN(tt, i) == IF tt = 1 THEN TrTV(1, 12, 14, << 128, 192, 256 >>[(i % 3) + 1]) ELSE TrNone(tt, i)
+Calls(tts) == [i \in 1..Len(tts) |-> C("Transform", FALSE, TrN(tts[i], i))]
+ManyOrders == { << 1, 1, 1, 1, 1, 2 >>, << 2, 1, 1, 1, 1, 1, 1 >>, << 1, 1, 1, 1, 1, 1, 2, 2, 2, 2, 2, 3, 3, 3, 3, 3, 4, 4, 4, 4, 4, 5, 5 >>,
+                << 5, 4, 3, 2, 1, 1, 1, 1, 1, 1, 2, 2, 2, 2, 2 >>, << 5, 5, 4, 4, 4, 4, 4, 4, 3, 2, 1 >>, << 1, 2, 1, 2, 1, 2, 1, 2, 1, 2, 3, 4, 3, 4, 3, 4, 3, 4, 3, 4 >>,
+                << 3, 3, 3, 3, 3, 3, 3, 3, 3, 4, 1 >>, << 4, 4, 4, 4, 4, 5, 5, 5, 5, 5, 5 >> }
+ManyPrograms == { << C("Nonce", TRUE, [data |-> D(16, 14)]), C("SecurityAssociation", TRUE, [x |-> 0]), C("Proposal", FALSE, [num |-> 1, proto |-> 1, spi |-> << >>]) >> \o Calls(o) : o \in ManyOrders }
+                \cup { << C("SecurityAssociation", TRUE, [x |-> 0]), C("Proposal", FALSE, [num |-> 1, proto |-> 3, spi |-> D(4, 26)]) >> \o Calls(o)
+                         \o << C("Proposal", FALSE, [num |-> 2, proto |-> 3, spi |-> D(4, 27)]) >> \o Calls(o) : o \in { << 1, 1, 1, 1, 1, 3 >>, << 3, 1, 1, 1, 1, 1 >> } }
+
 \* every repeatable builder called, the payload it made edited by the caller, and the builder called again with the same arguments:
 \* the second payload is what the arguments say (no object or storage shared between the payloads of two calls)
 EditPrograms == { << c, C("Edit", TRUE, [x |-> 0]), c >> : c \in { d \in TopCalls : d.rep } }
 
 Init == \/ cont = << >> /\ calls = << >> /\ failed = FALSE
-        \/ calls \in SweepPrograms \cup ScalarSweeps \cup EditPrograms \cup ResetPrograms /\ cont = Final(<< >>, calls) /\ failed = TRUE
+        \/ calls \in SweepPrograms \cup ScalarSweeps \cup EditPrograms \cup ResetPrograms \cup ManyPrograms /\ cont = Final(<< >>, calls) /\ failed = TRUE
         \/ calls \in { << C("HeaderSweep", TRUE, [x |-> k]) >> : k \in 1..NHeaderSweeps } /\ cont = << >> /\ failed = TRUE
 Build(c) == /\ CallEnabled(cont, c)
             /\ cont' = ApplyCall(cont, c).cont
